@@ -18,7 +18,7 @@ RULE = ("random sights: focal plane in {FFP, SFP, LWIR}, horizontal != vertical 
         "taken from rows of a real trajectory; plus construction rejections; a case = (sight, query); non-trivial "
         "when h click != v click and both corrections are non-zero")
 MUST_OBSERVE = ["clicks_checked", "plane_FFP", "plane_SFP", "plane_LWIR", "from_trajectory_row", "linearity_checked",
-                "rejections_checked", "unequal_clicks"]
+                "rejections_checked", "unequal_clicks", "units_switched_after_construction"]
 ASSUMPTIONS = ["click sizes and corrections converted to radians with R-SI (vf/refs_si.py)",
                "for SFP the product nominal x ratio x magnification is accepted in either linear reading (in radians "
                "or in the click's own unit); they differ only for the two tangent units, by < 1e-6"]
@@ -106,6 +106,13 @@ def check_case(ctx, case):
         return
 
     sight = mk_sight(case)
+    if case.get("switch_units_after_construction"):
+        # the session's preferred units change between building the sight and asking for clicks
+        PreferredUnits.adjustment = Unit[case["switch_units_after_construction"][0]]
+        PreferredUnits.angular = Unit[case["switch_units_after_construction"][1]]
+        if case["switch_units_after_construction"][2]:
+            sight.v_click_size << Unit[case["switch_units_after_construction"][0]]      # and a click size is displayed in another unit
+        ctx.count("units_switched_after_construction")
     ctx.count("plane_" + case["sight"]["plane"])
     unequal = case["sight"]["h"]["rad"] != case["sight"]["v"]["rad"]
     if unequal:
@@ -186,16 +193,18 @@ def gen_case(rng):
             s[rng.choice("hv")] = None
         return {"kind": "reject", "why": why, "sight": s}
     mag = rng.choice([1.0, round(rng.uniform(1, 50), 2), float(rng.randint(2, 25))])
+    switch = [rng.choice(ANG), rng.choice(ANG), rng.random() < 0.5] if rng.random() < 0.3 else None
     if k < 0.8:
         tgt = length(10, 2000)
         if tgt["bare"] and sight["scale"] and sight["scale"]["bare"]:
             tgt["unit"] = sight["scale"]["unit"]
         return {"kind": "direct", "sight": sight, "mag": mag, "target": tgt, "drop": corr(), "wind": corr(),
-                "k": rng.choice([-1.0, 2.0, 0.5, round(rng.uniform(-5, 5), 3)])}
+                "k": rng.choice([-1.0, 2.0, 0.5, round(rng.uniform(-5, 5), 3)]), "switch_units_after_construction": switch}
     shot = gen.shot(rng, flat=True, custom=0.0, cant=False, wind_n=1)
     shot["winds"] = [[rng.uniform(3, 30), rng.choice([90.0, 270.0, rng.uniform(0, 360)]), None]]
+    shot["look_deg"] = rng.choice([0.0, round(rng.uniform(-35, 35), 1)])
     return {"kind": "row", "sight": sight, "mag": mag, "shot": shot, "range_ft": round(rng.uniform(150, 900), 1),
-            "row": rng.choice([1, 2, 3, 4])}
+            "row": rng.choice([1, 2, 3, 4]), "switch_units_after_construction": switch}
 
 
 def run(ctx):
